@@ -106,6 +106,17 @@ var propTable = map[string]propInfo{
 			"Map-range loops are verified for an arbitrary enumeration order with partial-count invariants; the tracker glue (TallyVotes, Committed, QuorumActive, " +
 			"RecordVote, IsSingleton) and readOnly.maybeAdvance are proved against the same specifications.",
 	},
+	"C13": {
+		Level: "other",
+		Explanation: commonMethod + "First sentence of the property, per operation and for every input: confchange.Changer.{Simple, EnterJoint, LeaveJoint} on a valid " +
+			"input return, when they accept, a configuration that satisfies the invariants (every member has a progress record and nothing else has one; staged learners are " +
+			"outgoing voters not yet marked; learners are disjoint from both voter sets and marked; a non-joint configuration has no staging and no AutoLeave) with at least one " +
+			"voter, and Simple changes the incoming voter set in at most one id; when they reject they return the zero configuration; in both cases the input sets, progress map, " +
+			"progress records and inflight windows are not written (the work happens on fresh copies: checkAndCopy, tracker.Config.Clone). checkInvariants is proved to imply the " +
+			"invariants when it returns nil; apply/makeVoter/makeLearner/remove/initProgress carry the working-state invariant. symdiff (count of the symmetric difference) is an " +
+			"assumed contract. Second sentence (Restore reproduces an equivalent configuration from a ConfState) is NOT decided: confchange.Restore, ProgressTracker.ConfState and " +
+			"ConfState.Equivalent are not under contract (raft.restore only proves that Restore is handed a fresh empty tracker).",
+	},
 	"C14": {
 		Level: "other",
 		Explanation: commonMethod + "For every function under contract, each Panicf/panic site, nil dereference, index/slice bound and division is an obligation discharged " +
